@@ -18,17 +18,47 @@ class T2(Component):
 
 
 def _population(m, n, comps, tags):
-    """n residents in join order; comps[i] = (has T1, has T2); tags[i] any int. Written directly into env.agents."""
+    """n residents in join order; comps[i] = (has T1, has T2); tags[i] any int.  Written directly into env.agents, or -
+    partition flag 'api' - joined through add_agent (so that the component pools exist).  Flag 'nested': the first
+    resident is itself an Environment (environments are agents and may be residents of another environment)."""
     res = []
     for i in range(n):
-        a = Agent("a%d" % i, m, tag=tags[i])
+        if i == 0 and hx.P.get('nested'):
+            a = Environment(m, id="a0")
+            a.tag = tags[0]
+        else:
+            a = Agent("a%d" % i, m, tag=tags[i])
         if comps[i][0]:
             a.add_component(T1(a, m))
         if comps[i][1]:
             a.add_component(T2(a, m))
-        m.environment.agents[a.id] = a
+        if hx.P.get('api'):
+            m.environment.add_agent(a)
+        else:
+            m.environment.agents[a.id] = a
         res.append(a)
     return res
+
+
+class _NoGlobalRandom:
+    """any use of the process-global generator by the framework is a violation (C07 decides non-interference in full;
+    here it keeps the pick deterministic)"""
+
+    def __enter__(self):
+        import random as _r
+
+        def trap(*a, **k):
+            raise AssertionError("the process-global random generator was used for a model-level random service")
+        self.saved = [(n, getattr(_r, n)) for n in ("choice", "shuffle", "randrange", "randint", "random", "sample")]
+        for n, _ in self.saved:
+            setattr(_r, n, trap)
+        return self
+
+    def __exit__(self, *a):
+        import random as _r
+        for n, v in self.saved:
+            setattr(_r, n, v)
+        return False
 
 
 def _template(w1, w2, w0, swap):
@@ -130,7 +160,15 @@ def random_pick(a1: bool, b1: bool, c1: bool, d1: bool, t0: int, t1: int, t2: in
             continue
         spec.append(a)
     kw = {"tag": tag} if use_tag else {}
-    got = m.environment.get_random_agent(*tmpl, **kw)
+    if hx.P.get('second_env'):
+        # another environment of the same model (environments can be nested / created standalone) with its own resident:
+        # that agent is not in THIS environment and must never be picked or listed
+        other_env = Environment(m, id="elsewhere")
+        stranger = Agent("stranger", m, tag=t0)
+        stranger.add_component(T1(stranger, m))
+        other_env.add_agent(stranger)
+    with _NoGlobalRandom():
+        got = m.environment.get_random_agent(*tmpl, **kw)
     if len(spec) == 0:
         hx.reach('none')
         if got is not None:
@@ -273,12 +311,14 @@ ASSUMPTIONS = ["populations are written directly into environment.agents (any in
 def obligations(tier):
     enc = (Environment.get_agents, Agent.has_component)
     return [
-        X("template_filter", template_filter, parts=[{"n": n} for n in (0, 2, 3)], labels=("proper_subset", "empty_template"),
+        X("template_filter", template_filter, parts=[{"n": n} for n in (0, 2, 3)] + [{"n": 2, "nested": True}, {"n": 2, "api": True}],
+          labels=("proper_subset", "empty_template"),
           labels_for=lambda p: ("proper_subset", "empty_template") if p["n"] else ("empty_template",), timeout=600, encoded=enc,
           bounds={"agents": "0,2,3", "template": "any subset of {T1,T2,T0}, either order"}),
         X("tag_filter", tag_filter, parts=[{"n": n} for n in (1, 3)], labels=("tag_zero_filters", "tag_matches"), timeout=600,
           encoded=enc, bounds={"tags": "all ints incl. 0 and unregistered", "filter": "None or any int"}),
-        X("random_pick", random_pick, parts=[{"n": n} for n in ((0, 2, 3) if tier == "quick" else (0, 1, 2, 3, 4))],
+        X("random_pick", random_pick, parts=[{"n": n} for n in ((0, 2, 3) if tier == "quick" else (0, 1, 2, 3, 4))] +
+          [{"n": 2, "api": True}, {"n": 3, "api": True, "nested": True}, {"n": 2, "api": True, "second_env": True}],
           labels=("none", "last_member", "filtered_pick"),
           labels_for=lambda p: ("none",) if p["n"] == 0 else ("none", "last_member", "filtered_pick"), timeout=900,
           encoded=(Environment.get_random_agent, Environment.get_agents), bounds={"draw": "any int >= 0"}),
